@@ -36,7 +36,7 @@ def evaluator(run, repo, I, mod, name, **kw):
 
 def slot_rules(run, repo, fam, mod, prefix, n, hfac=None):
     """SLOT/DERIV for one family. prefix: get_nasa_ / get_nasa9_ / get_shomate_"""
-    I = Interp(repo)
+    I = interp(repo, cls=PowWatch)
     D = I.D
     T = D.sym('T')
     a = coeff_vector(I, 'a', n)
@@ -46,10 +46,13 @@ def slot_rules(run, repo, fam, mod, prefix, n, hfac=None):
         kw['units'] = D.sym('units')
     else:
         kw['T'] = T
-    Cp, m, fCp = evaluator(run, repo, I, mod, prefix + 'CpoR', **kw)
-    H, _, fH = evaluator(run, repo, I, mod, prefix + 'HoRT', **kw)
-    S, _, fS = evaluator(run, repo, I, mod, prefix + 'SoR', **kw)
     con = '%s.%s' % (mod.split('.')[-1], prefix)
+    got, neg = {}, {}
+    for q in ('CpoR', 'HoRT', 'SoR'):
+        del I.neg_powers[:]
+        got[q] = evaluator(run, repo, I, mod, prefix + q, **kw)
+        neg[con + q] = sum(1 for base, _ in I.neg_powers if 'T' in atoms_of(base))
+    (Cp, m, fCp), (H, _, fH), (S, _, fS) = got['CpoR'], got['HoRT'], got['SoR']
     # linear in the coefficients
     for q, r, f in (('CpoR', Cp, fCp), ('HoRT', H, fH), ('SoR', S, fS)):
         lin = C(0)
@@ -94,15 +97,48 @@ def slot_rules(run, repo, fam, mod, prefix, n, hfac=None):
               'expected exactly one entropy integration-constant slot (basis k in S, 0 in Cp and H), '
               'found %s' % sconst, m, fS)
     run.sample({'family': fam, 'slot_table': table, 'H_const_slot': hconst, 'S_const_slot': sconst})
-    return {'I': I, 'Cp': Cp, 'H': H, 'S': S, 'hconst': hconst, 'sconst': sconst}
+    return {'I': I, 'Cp': Cp, 'H': H, 'S': S, 'hconst': hconst, 'sconst': sconst, 'neg': neg}
 
 
-def nasa_obj(I, repo, misc=None):
-    ci = repo.cls(NASA + '.Nasa')
-    o = Obj('sp', ci, attrs={'a_low': coeff_vector(I, 'lo', 7), 'a_high': coeff_vector(I, 'hi', 7),
-                             'misc_models': misc, 'name': 'sp'})
+def interp(repo, ranks=None, cls=None, domain=None):
+    """one interpreter of this module: comparisons of symbols answered by the ranks of the instance; a number that is
+    printed and read back is the number as printed"""
+    I = (cls or Interp)(repo, domain=domain, order=RankOrder(ranks) if ranks is not None else None)
+    I.track_print_precision = True
+    return I
+
+
+def built(I, repo, qual, objname, **kw):
+    """a species made by its own constructor (the names under which a class keeps what it is given are its business)"""
+    o = I.construct(repo.cls(qual), [], kw, name=objname)
+    if isinstance(o, Raised):
+        raise Unsupported('%s(...) raised %s for the model species' % (qual, o.exc))
     sel_opaque(o)
     return o
+
+
+def bounds_of(I, name, given=None):
+    """T_low / T_mid / T_high of a model species: symbols named after the species (ranked by the instance) unless
+    the instance gives concrete temperatures"""
+    given = given or {}
+    return {k: given.get(k, I.D.sym('%s.%s' % (name, k))) for k in ('T_low', 'T_mid', 'T_high')}
+
+
+def nasa_obj(I, repo, misc=None, name='sp', lo='lo', hi='hi', bounds=None):
+    b = bounds_of(I, name, bounds)
+    return built(I, repo, NASA + '.Nasa', name, name=name, T_low=b['T_low'], T_mid=b['T_mid'], T_high=b['T_high'],
+                 a_low=coeff_vector(I, lo, 7), a_high=coeff_vector(I, hi, 7), misc_models=misc)
+
+
+def shomate_obj(I, repo, units, misc=None, name='sp', coef='a', bounds=None):
+    b = bounds_of(I, name, bounds)
+    return built(I, repo, SHO + '.Shomate', name, name=name, T_low=b['T_low'], T_high=b['T_high'],
+                 a=coeff_vector(I, coef, 8), units=units, misc_models=misc)
+
+
+def coeffs(I, o, attr):
+    """a coefficient vector of a species as a user reads it"""
+    return get_public(I, o, attr)
 
 
 def check_get_a(run, repo):
@@ -113,11 +149,11 @@ def check_get_a(run, repo):
     names = {0: 'T<T_low', 1: 'T=T_low', 2: 'T_low<T<T_mid', 3: 'T=T_mid', 4: 'T_mid<T<T_high',
              5: 'T=T_high', 6: 'T>T_high'}
     for rank, label in names.items():
-        I = Interp(repo, order=RankOrder({'sp.T_low': 1, 'sp.T_mid': 3, 'sp.T_high': 5, 'T': rank}))
+        I = interp(repo, {'sp.T_low': 1, 'sp.T_mid': 3, 'sp.T_high': 5, 'T': rank})
         o = nasa_obj(I, repo)
         T = I.D.sym('T')
         r = I.call_method(o, 'get_a', [], {'T': T})
-        want = o.attrs['a_low'] if rank < 3 else o.attrs['a_high']
+        want = coeffs(I, o, 'a_low' if rank < 3 else 'a_high')
         run.check(isinstance(r, ListV) and same(r, want), 'ORDER.get_a', 'nasa.Nasa.get_a', 'ordering:' + label,
                   'for %s the %s-temperature coefficients must be used (upper segment at and above T_mid; '
                   'out of range only warns) but got %s' % (label, 'low' if rank < 3 else 'high', show(r)),
@@ -132,25 +168,29 @@ def check_get_a(run, repo):
                       'a warning is raised for a temperature inside the range', owner.module, fn)
 
 
-def nasa9_obj(I, repo, nseg, misc=None):
-    ci = repo.cls(NASA + '.Nasa9')
-    sci = repo.cls(NASA + '.SingleNasa9')
+def nasa9_segments(I, repo, nseg, seg='seg', coef='s', bounds=None):
+    """nseg SingleNasa9 objects <seg>0.. with coefficient symbols <coef>0[..]..; bounds: [(T_low, T_high)] concrete"""
     segs = []
     for j in range(nseg):
-        segs.append(Obj('seg%d' % j, sci, attrs={'a': coeff_vector(I, 's%d' % j, 9)}))
-    o = Obj('sp', ci, attrs={'misc_models': misc, 'name': 'sp'})
-    set_public(I, o, 'nasas', ListV(segs))
-    sel_opaque(o)
+        nm = '%s%d' % (seg, j)
+        lo, hi = bounds[j] if bounds else (I.D.sym(nm + '.T_low'), I.D.sym(nm + '.T_high'))
+        segs.append(built(I, repo, NASA + '.SingleNasa9', nm, T_low=lo, T_high=hi, a=coeff_vector(I, '%s%d' % (coef, j), 9)))
+    return segs
+
+
+def nasa9_obj(I, repo, nseg, misc=None, name='sp', seg='seg', coef='s', bounds=None):
+    segs = nasa9_segments(I, repo, nseg, seg, coef, bounds)
+    o = built(I, repo, NASA + '.Nasa9', name, name=name, nasas=ListV(list(segs)), misc_models=misc)
     return o, segs
 
 
-def seg_ranks(nseg):
-    """segment j occupies ranks [10j+1, 10j+9]; consecutive segments share the
-    boundary (T_high of j == T_low of j+1 have the same rank 10(j+1)+... )"""
+def seg_ranks(nseg, seg='seg', cuts=None):
+    """segment j occupies ranks [10j, 10(j+1)] (or [cuts[j], cuts[j+1]]); consecutive segments share the boundary"""
+    cuts = cuts or [10 * j for j in range(nseg + 1)]
     ranks = {}
     for j in range(nseg):
-        ranks['seg%d.T_low' % j] = 10 * j
-        ranks['seg%d.T_high' % j] = 10 * (j + 1)
+        ranks['%s%d.T_low' % (seg, j)] = cuts[j]
+        ranks['%s%d.T_high' % (seg, j)] = cuts[j + 1]
     return ranks
 
 
@@ -188,7 +228,7 @@ def check_get_nasa(run, repo, max_seg):
         for rank, want, label in positions:
             ranks = seg_ranks(nseg)
             ranks['T'] = rank
-            I = Interp(repo, order=RankOrder(ranks))
+            I = interp(repo, ranks)
             o, segs = nasa9_obj(I, repo, nseg)
             sel, r = selected_segment(I, o, segs, I.D.sym('T'))
             key = 'segments:%d %s' % (nseg, label)
@@ -210,7 +250,7 @@ def check_get_nasa(run, repo, max_seg):
         for j in range(nseg):
             ranks = seg_ranks(nseg)
             ranks['T'] = 10 * j + 5
-            I = Interp(repo, order=RankOrder(ranks))
+            I = interp(repo, ranks)
             o, segs = nasa9_obj(I, repo, nseg)
             set_public(I, o, 'nasas', ListV(list(reversed(segs))))
             sel, r = selected_segment(I, o, segs, I.D.sym('T'))
@@ -219,7 +259,7 @@ def check_get_nasa(run, repo, max_seg):
                       'T must be used, got %s' % (nseg, j, show(r, 120)), owner.module, fn)
             n_inst += 1
     ranks = {'seg0.T_low': 0, 'seg0.T_high': 10, 'seg1.T_low': 20, 'seg1.T_high': 30, 'T': 15}
-    I = Interp(repo, order=RankOrder(ranks))
+    I = interp(repo, ranks)
     o, segs = nasa9_obj(I, repo, 2)
     sel, r = selected_segment(I, o, segs, I.D.sym('T'))
     run.check(sel == 'raised', 'PATH.refuse', con, 'gap between segments',
@@ -235,7 +275,7 @@ def check_get_nasa(run, repo, max_seg):
                 ranks = {'seg0.T_low': 0, 'seg0.T_high': 10, 'seg1.T_low': 10, 'seg1.T_high': 20, 'T': rank, 'Tin': 5}
                 if where == 'in a gap':
                     ranks.update({'seg1.T_low': 20, 'seg1.T_high': 30})
-                I = Interp(repo, order=RankOrder(ranks))
+                I = interp(repo, ranks)
                 o, segs = nasa9_obj(I, repo, 2)
                 if form == 'scalar':
                     arg = I.D.sym('T')
@@ -257,17 +297,15 @@ def shomate_units(run, repo, unit_list):
     this module, the symbolic unit (any unit the constants table knows) in its place among the class rules."""
     sci = repo.cls(SHO + '.Shomate')
     for units in unit_list:
-        Iu = Interp(repo, order=RankOrder({'sp.T_low': 1, 'sp.T_high': 5, 'T': 3}))
+        Iu = interp(repo, {'sp.T_low': 1, 'sp.T_high': 5, 'T': 3})
         uval = Iu.D.sym('units') if units == 'symbolic' else units
         misc = attached_models(Iu, 2)
-        ou = Obj('sp', sci, attrs={'a': coeff_vector(Iu, 'a', 8), 'misc_models': misc, 'name': 'sp'})
-        set_public(Iu, ou, 'units', uval)
-        sel_opaque(ou)
+        ou = shomate_obj(Iu, repo, uval, misc=misc)
         Tu, Pu = Iu.D.sym('T'), Iu.D.sym('P')
         for q in ('CpoR', 'HoRT', 'SoR'):
             got = Iu.call_method(ou, 'get_' + q, [], {'T': Tu, 'P': Pu})
             mq, fq = fn_of(repo, SHO, 'get_shomate_' + q)
-            bare = Iu.call_function(mq, fq, [], {'a': ou.attrs['a'], 'T': Elem(Tu), 'units': uval})
+            bare = Iu.call_function(mq, fq, [], {'a': coeffs(Iu, ou, 'a'), 'T': Elem(Tu), 'units': uval})
             bare = bare.r if isinstance(bare, Elem) else bare
             want = Iu.binop('+', bare, attached_sum(Iu, misc, q, T=Tu, P=Pu))
             owner, fn = repo.find_method(sci, 'get_' + q)
@@ -277,7 +315,7 @@ def shomate_units(run, repo, unit_list):
                       owner.module, fn)
             if units not in ('symbolic', 'J/mol/K'):
                 # the same coefficients in another unit: the dimensionless value scales with R(J/mol/K)/R(unit)
-                ref = Iu.call_function(mq, fq, [], {'a': ou.attrs['a'], 'T': Elem(Tu), 'units': 'J/mol/K'})
+                ref = Iu.call_function(mq, fq, [], {'a': coeffs(Iu, ou, 'a'), 'T': Elem(Tu), 'units': 'J/mol/K'})
                 ref = ref.r if isinstance(ref, Elem) else ref
                 RJ = Iu.D.sym('kb') * Iu.D.sym('Na')
                 Ru = Iu.native['pmutt.constants.R'](Iu, None, [units], {}, None)       # the unit model (verified by C12)
@@ -287,17 +325,16 @@ def shomate_units(run, repo, unit_list):
                           'coefficients carry the fitting unit, nothing else may depend on it' % (units, units), mq, fq)
 
 
-def class_rules(run, repo, max_len):
-    """TWIN G=H-S, segment use, scalar/array agreement for Nasa, Nasa9, Shomate"""
-    n_bt = 0
+def class_rules(run, repo):
+    """TWIN G=H-S, segment use for Nasa, Nasa9, Shomate"""
     # ---- Nasa ---------------------------------------------------------
     for seg, rankT in (('low', 2), ('high', 4), ('high@T_mid', 3)):
-        I = Interp(repo, order=RankOrder({'sp.T_low': 1, 'sp.T_mid': 3, 'sp.T_high': 5, 'T': rankT}))
+        I = interp(repo, {'sp.T_low': 1, 'sp.T_mid': 3, 'sp.T_high': 5, 'T': rankT})
         misc = attached_models(I, 2)
         o = nasa_obj(I, repo, misc=misc)
         T = I.D.sym('T')
         P = I.D.sym('P')
-        a = o.attrs['a_low'] if rankT < 3 else o.attrs['a_high']
+        a = coeffs(I, o, 'a_low' if rankT < 3 else 'a_high')
         ev = {}
         for q in ('CpoR', 'HoRT', 'SoR'):
             ev[q] = I.call_method(o, 'get_' + q, [], {'T': T, 'P': P})
@@ -325,7 +362,7 @@ def class_rules(run, repo, max_len):
         for j in range(nseg):
             ranks = seg_ranks(nseg)
             ranks['T'] = 10 * j + 5
-            I = Interp(repo, order=RankOrder(ranks))
+            I = interp(repo, ranks)
             misc = attached_models(I, 2)
             o, segs = nasa9_obj(I, repo, nseg, misc=misc)
             T = I.D.sym('T')
@@ -333,7 +370,7 @@ def class_rules(run, repo, max_len):
             for q in ('CpoR', 'HoRT', 'SoR'):
                 got = I.call_method(o, 'get_' + q, [], {'T': T, 'P': P})
                 m, f = fn_of(repo, NASA, 'get_nasa9_' + q)
-                bare = I.call_function(m, f, [], {'a': segs[j].attrs['a'], 'T': T})
+                bare = I.call_function(m, f, [], {'a': coeffs(I, segs[j], 'a'), 'T': T})
                 mixq = attached_sum(I, misc, q, T=T, P=P)
                 want = I.binop('+', bare, mixq)
                 owner, fn = repo.find_method(o.ci, 'get_' + q)
@@ -351,11 +388,9 @@ def class_rules(run, repo, max_len):
                           'segments:%d seg %d S_elements=%s' % (nseg, j, sel),
                           'GoRT differs from HoRT - SoR under identical arguments', owner.module, fn)
     # ---- Shomate ----------------------------------------------------------
-    I = Interp(repo, order=RankOrder({'sp.T_low': 1, 'sp.T_high': 5, 'T': 3}))
+    I = interp(repo, {'sp.T_low': 1, 'sp.T_high': 5, 'T': 3})
     sci = repo.cls(SHO + '.Shomate')
-    o = Obj('sp', sci, attrs={'a': coeff_vector(I, 'a', 8), 'misc_models': None, 'name': 'sp'})
-    set_public(I, o, 'units', I.D.sym('units'))
-    sel_opaque(o)
+    o = shomate_obj(I, repo, I.D.sym('units'))
     T = I.D.sym('T')
     for sel in (None, True):
         G = I.call_method(o, 'get_GoRT', [], {'T': T, 'S_elements': sel})
@@ -376,41 +411,316 @@ def class_rules(run, repo, max_len):
     run.check(same(g, I.binop('-', h, s)), 'TWIN.G=H-S', 'shomate.get_shomate_GoRT', 'twin',
               'get_shomate_GoRT differs from get_shomate_HoRT - get_shomate_SoR', m, f)
 
-    # ---- scalar / array agreement (BRANCH-TWIN, bounded unrolling) ----------
-    def make(kind, n, with_misc=False):
+
+QUANTITIES = ('CpoR', 'HoRT', 'SoR', 'GoRT')
+
+
+def reference(repo, I, fam, q, a, T, units=None):
+    """the family's evaluator of quantity q applied to the coefficients a at T, in an interpreter of its own: nothing
+    that an earlier call left behind anywhere (an object, a class, a module) reaches it"""
+    if q == 'GoRT':
+        return reference(repo, I, fam, 'HoRT', a, T, units) - reference(repo, I, fam, 'SoR', a, T, units)
+    J = interp(repo, domain=I.D)
+    mod, prefix = {'nasa': (NASA, 'get_nasa_'), 'nasa9': (NASA, 'get_nasa9_'), 'shomate': (SHO, 'get_shomate_')}[fam]
+    m, f = fn_of(repo, mod, prefix + q)
+    kw = {'a': ListV(list(a.items)), 'T': T}
+    if fam == 'shomate':
+        kw = {'a': ListV(list(a.items)), 'T': Elem(T), 'units': units}
+    r = J.call_function(m, f, [], kw)
+    r = r.r if isinstance(r, Elem) else r
+    if isinstance(r, ListV) and len(r) == 1:
+        r = r.items[0]
+    if not isinstance(r, Rat):
+        raise Unsupported('%s%s did not translate to a scalar normal form: %s' % (prefix, q, show(r)))
+    return r
+
+
+def scalar_of(v):
+    if isinstance(v, SumV) and v.elem.iszero():
+        v = v.scalar
+    if isinstance(v, ListV) and len(v) == 1:
+        v = v.items[0]
+    return v
+
+
+def vectors_used(v, names):
+    """which of the named coefficient vectors occur in a value"""
+    used = {a.split('[')[0] for a in atoms_of(v) if '[' in a}
+    return sorted(n for n in names if n in used)
+
+
+def neighbour_rules(run, repo):
+    """concrete temperatures on a bound and next to it (closer than any printed resolution), asked for one after the
+    other on the same species and in one array: each is evaluated with the segment that contains it, whatever was asked
+    for before"""
+    n = 0
+    delta = C(Fr(1, 2 ** 30))          # 9.3e-10 K; 1000 + 2^-30 is a double
+    # ---- next to a bound, after the bound itself ------------------------------------------------------------------------
+    lo, mid, hi = C(200), C(1000), C(6000)
+    for q in QUANTITIES:
+        I = interp(repo)
+        o, _ = nasa9_obj(I, repo, 2, bounds=[(lo, mid), (mid, hi)])
+        owner, fn = repo.find_method(o.ci, 'get_' + q)
+        seq = [('T_mid', mid, (0, 1)), ('T_mid + 2^-30 K', mid + delta, (1,)), ('T_mid - 2^-30 K', mid - delta, (0,)),
+               ('T_high', hi, (1,)), ('T_high + 2^-30 K', hi + delta, None), ('T_low', lo, (0,)),
+               ('T_low - 2^-30 K', lo - delta, None), ('T_mid + 2^-30 K', mid + delta, (1,))]
+        before = 'nothing'
+        for label, Tv, allowed in seq:
+            r = I.call_method(o, 'get_' + q, [], {'T': Tv})
+            used = None if isinstance(r, Raised) else vectors_used(scalar_of(r), ('s0', 's1'))
+            if allowed is None:
+                ok = isinstance(r, Raised)
+                why = 'lies outside every segment and must be refused'
+            else:
+                ok = used is not None and len(used) == 1 and int(used[0][1:]) in allowed
+                why = 'must be evaluated with segment %s' % ' or '.join(str(j) for j in allowed)
+            run.check(ok, 'ORDER.segment', 'nasa.Nasa9.get_' + q, 'next to a bound: %s after %s' % (label, before),
+                      'segments 200-1000 K and 1000-6000 K: T = %s (asked for after %s) %s, got %s'
+                      % (label, before, why, show(r, 110)), owner.module, fn,
+                      sample='Nasa9.get_%s at %s after %s' % (q, label, before) if q == 'CpoR' else None)
+            before = label
+            n += 1
+        # the same temperatures in one array
+        I = interp(repo)
+        o, _ = nasa9_obj(I, repo, 2, bounds=[(lo, mid), (mid, hi)])
+        arr = ListV([mid, mid + delta, mid - delta, hi, lo])
+        arr.is_array = True
+        arr.dtype = 'float'
+        r = I.call_method(o, 'get_' + q, [], {'T': arr})
+        used = [vectors_used(x, ('s0', 's1')) for x in r.items] if isinstance(r, ListV) else None
+        ok = used is not None and len(used) == 5 and used[1:] == [['s1'], ['s0'], ['s1'], ['s0']] and len(used[0]) == 1
+        run.check(ok, 'ORDER.segment', 'nasa.Nasa9.get_' + q, 'next to a bound: array [T_mid, T_mid + 2^-30 K, ..]',
+                  'segments 200-1000 K and 1000-6000 K: the entries of [T_mid, T_mid + 2^-30, T_mid - 2^-30, T_high, '
+                  'T_low] must be evaluated with segments [0 or 1, 1, 0, 1, 0], got the coefficients %s' % (used,),
+                  owner.module, fn)
+        n += 1
+        for order in ((('T_mid', mid, 'hi'), ('T_mid - 2^-30 K', mid - delta, 'lo'), ('T_mid + 2^-30 K', mid + delta, 'hi'),
+                       ('T_mid', mid, 'hi')),
+                      (('T_mid - 2^-30 K', mid - delta, 'lo'), ('T_mid', mid, 'hi'), ('T_mid - 2^-30 K', mid - delta, 'lo'))):
+            I = interp(repo)
+            o = nasa_obj(I, repo, bounds={'T_low': lo, 'T_mid': mid, 'T_high': hi})
+            owner, fn = repo.find_method(o.ci, 'get_' + q)
+            before = 'nothing'
+            for label, Tv, want in order:
+                r = I.call_method(o, 'get_' + q, [], {'T': Tv})
+                used = None if isinstance(r, Raised) else vectors_used(scalar_of(r), ('lo', 'hi'))
+                run.check(used == [want], 'ORDER.get_a', 'nasa.Nasa.get_' + q,
+                          'next to T_mid: %s after %s' % (label, before),
+                          'T_mid = 1000 K: T = %s (asked for after %s) must be evaluated with a_%s, got %s'
+                          % (label, before, 'low' if want == 'lo' else 'high', show(r, 110)), owner.module, fn)
+                before = label
+                n += 1
+    return n
+
+
+def state_rules(run, repo):
+    """what one evaluation leaves behind must not reach another one: a second species evaluated after a first one at the
+    same temperature, a species whose coefficients / segments / break temperature were replaced"""
+    n = 0
+    # ---- two species in one process -------------------------------------------------------------------------------
+    # NASA-9: T lies in segment 0 of the first species and in segment 1 of the second one
+    ranks = dict(seg_ranks(2, 'seg', [0, 10, 20]))
+    ranks.update(seg_ranks(2, 'teg', [0, 4, 20]))
+    ranks['T'] = 5
+    I = interp(repo, ranks)
+    T, P = I.D.sym('T'), I.D.sym('P')
+    first, _ = nasa9_obj(I, repo, 2)
+    second, _ = nasa9_obj(I, repo, 2, name='sq', seg='teg', coef='u')
+    plan = [('nasa', 'Nasa9', 'nasa9', first, coeff_vector(I, 's0', 9), second, coeff_vector(I, 'u1', 9), None)]
+    # NASA-7: T in the high segment of the first species and in the low segment of the second one
+    I7 = interp(repo, {'sp.T_low': 1, 'sp.T_mid': 3, 'sp.T_high': 9, 'sq.T_low': 1, 'sq.T_mid': 7, 'sq.T_high': 9, 'T': 5})
+    plan.append(('nasa', 'Nasa', 'nasa', nasa_obj(I7, repo), coeff_vector(I7, 'hi', 7),
+                 nasa_obj(I7, repo, name='sq', lo='lq', hi='hq'), coeff_vector(I7, 'lq', 7), None))
+    Is = interp(repo, {'sp.T_low': 1, 'sp.T_high': 9, 'sq.T_low': 1, 'sq.T_high': 9, 'T': 5})
+    plan.append(('shomate', 'Shomate', 'shomate', shomate_obj(Is, repo, Is.D.sym('units')), coeff_vector(Is, 'a', 8),
+                 shomate_obj(Is, repo, 'kJ/mol/K', name='sq', coef='b'), coeff_vector(Is, 'b', 8), 'kJ/mol/K'))
+    for modname, kind, fam, sp1, a1, sp2, a2, units2 in plan:
+        J = {'Nasa9': I, 'Nasa': I7, 'Shomate': Is}[kind]
+        T = J.D.sym('T')
+        u1 = J.D.sym('units') if kind == 'Shomate' else None
+        for q in QUANTITIES:
+            owner, fn = repo.find_method(sp2.ci, 'get_' + q)
+            con = '%s.%s.get_%s' % (modname, kind, q)
+            v1 = scalar_of(J.call_method(sp1, 'get_' + q, [], {'T': T}))
+            v2 = scalar_of(J.call_method(sp2, 'get_' + q, [], {'T': T}))
+            v2b = scalar_of(J.call_method(sp2, 'get_' + q, [], {'T': T}))
+            v1b = scalar_of(J.call_method(sp1, 'get_' + q, [], {'T': T}))
+            w1 = reference(repo, J, fam, q, a1, T, u1)
+            w2 = reference(repo, J, fam, q, a2, T, units2)
+            run.check(same(v2, w2) and same(v2b, w2), 'EFFECT.state', con,
+                      'a second species after another one at the same temperature',
+                      'a species evaluated after another species was evaluated at the same temperature must report its '
+                      'own polynomial (the evaluator on its own coefficients of the segment that contains T), got %s, '
+                      'asked again %s - expected %s' % (show(v2, 110), show(v2b, 110), show(w2, 110)),
+                      owner.module, fn, sample='two %s species in one interpreter, get_%s of the second' % (kind, q))
+            run.check(same(v1, w1) and same(v1b, w1), 'EFFECT.state', con,
+                      'the first species again after a second one',
+                      'the species evaluated first must report its own polynomial, before and after another species was '
+                      'evaluated at the same temperature: got %s, then %s - expected %s'
+                      % (show(v1, 110), show(v1b, 110), show(w1, 110)), owner.module, fn)
+            n += 2
+    # ---- the data of a species replaced after it was evaluated --------------------------------------------------------
+    for q in QUANTITIES:
+        # NASA-9: new segments (other coefficients, other bounds: T moves from segment 0 to segment 1)
+        ranks = dict(seg_ranks(2, 'seg', [0, 10, 20]))
+        ranks.update(seg_ranks(2, 'teg', [0, 4, 20]))
+        ranks['T'] = 5
+        I = interp(repo, ranks)
+        T = I.D.sym('T')
+        o, _ = nasa9_obj(I, repo, 2)
+        owner, fn = repo.find_method(o.ci, 'get_' + q)
+        I.call_method(o, 'get_' + q, [], {'T': T})
+        set_public(I, o, 'nasas', ListV(nasa9_segments(I, repo, 2, 'teg', 'u')))
+        got = scalar_of(I.call_method(o, 'get_' + q, [], {'T': T}))
+        want = reference(repo, I, 'nasa9', q, coeff_vector(I, 'u1', 9), T)
+        run.check(same(got, want), 'EFFECT.state', 'nasa.Nasa9.get_' + q, 'segments replaced after an evaluation',
+                  'after `nasas` was assigned new segments the species must be evaluated with them (T lies in the '
+                  'second of the new segments): got %s, expected %s' % (show(got, 120), show(want, 120)),
+                  owner.module, fn)
+        # NASA-7: the break temperature moved below T, then the coefficients of the high segment replaced
+        I = interp(repo, {'sp.T_low': 1, 'sp.T_mid': 7, 'sp.T_high': 9, 'T': 5, 'T_mid2': 3})
+        T = I.D.sym('T')
+        o = nasa_obj(I, repo)
+        owner, fn = repo.find_method(o.ci, 'get_' + q)
+        I.call_method(o, 'get_' + q, [], {'T': T})
+        set_public(I, o, 'T_mid', I.D.sym('T_mid2'))
+        got = scalar_of(I.call_method(o, 'get_' + q, [], {'T': T}))
+        want = reference(repo, I, 'nasa', q, coeff_vector(I, 'hi', 7), T)
+        run.check(same(got, want), 'EFFECT.state', 'nasa.Nasa.get_' + q, 'T_mid moved after an evaluation',
+                  'after T_mid was set below T the high-temperature coefficients must be used: got %s, expected %s'
+                  % (show(got, 120), show(want, 120)), owner.module, fn)
+        new = coeff_vector(I, 'hn', 7)
+        new.is_array = True
+        set_public(I, o, 'a_high', new)
+        got = scalar_of(I.call_method(o, 'get_' + q, [], {'T': T}))
+        want = reference(repo, I, 'nasa', q, coeff_vector(I, 'hn', 7), T)
+        run.check(same(got, want), 'EFFECT.state', 'nasa.Nasa.get_' + q, 'a_high replaced after an evaluation',
+                  'after a_high was assigned new coefficients they must be used: got %s, expected %s'
+                  % (show(got, 120), show(want, 120)), owner.module, fn)
+        n += 3
+    return n
+
+
+def _int_const(v):
+    """the integer a constant abstract value stands for, else None"""
+    if isinstance(v, bool):
+        return None
+    if isinstance(v, int):
+        return v
+    if isinstance(v, Fr):
+        return int(v) if v.denominator == 1 else None
+    if isinstance(v, Rat):
+        if v.iszero():
+            return 0
+        if v.is_const() and v.const_value().denominator == 1:
+            return int(v.const_value())
+    return None
+
+
+class LenWatch(Interp):
+    """an interpreter that remembers which whole numbers were compared with each other: a getter that compares the
+    number of temperatures it was given with a constant takes another path on the other side of that constant, and
+    the unrolled lengths have to reach it"""
+
+    def __init__(self, *a, **k):
+        Interp.__init__(self, *a, **k)
+        self.int_compares = []
+
+    def compare(self, op, a, b, node=None):
+        if op in ('<', '<=', '>', '>=', '==', '!='):
+            x, y = _int_const(a), _int_const(b)
+            if x is not None and y is not None:
+                self.int_compares.append((x, y))
+        return Interp.compare(self, op, a, b, node)
+
+
+class PowWatch(Interp):
+    """an interpreter that remembers the negative whole powers it computed (base value, exponent)"""
+
+    def __init__(self, *a, **k):
+        Interp.__init__(self, *a, **k)
+        self.neg_powers = []
+
+    def binop(self, op, a, b):
+        if op == '**':
+            e = _int_const(b)
+            if e is not None and e < 0 and not isinstance(a, (ListV, Elem)):
+                self.neg_powers.append((a, e))
+        return Interp.binop(self, op, a, b)
+
+
+LONGEST = 600       # array lengths up to here are unrolled when the code under analysis dispatches on the length
+
+
+def length_thresholds(compares_by_n, covered):
+    """constants c that were compared with the number of temperatures n on every run (n = 1, 2, ..): the lengths
+    next to c that are not unrolled yet"""
+    common = None
+    for n, pairs in compares_by_n.items():
+        other = {y for x, y in pairs if x == n} | {x for x, y in pairs if y == n}
+        other.discard(n)
+        common = other if common is None else common & other
+    out = set()
+    for c in sorted(common or ()):
+        for n in (c - 1, c, c + 1):
+            if n >= 1 and n not in covered:
+                out.add(n)
+    return sorted(out)
+
+
+def array_rules(run, repo, max_len):
+    """scalar / array agreement (BRANCH-TWIN, bounded unrolling), the caller's temperatures are left as they were
+    (EFFECT.argument)"""
+    n_bt = 0
+    NASA_RANKS = [2, 4, 3, 2, 4]        # alternating between the low and high segment, one exactly on T_mid
+    NASA9_RANKS = [5, 15, 10, 3, 17]    # two segments, unsorted, one on the shared bound
+
+    def make(kind, n, with_misc=False, cls=None):
         if kind == 'Nasa':
-            # elements alternate between the low and high segment, one exactly on T_mid
             ranks = {'sp.T_low': 1, 'sp.T_mid': 3, 'sp.T_high': 5}
-            for i, r in enumerate([2, 4, 3, 2, 4][:n]):
-                ranks['T%d' % i] = r
-            I = Interp(repo, order=RankOrder(ranks))
+            for i in range(n):
+                ranks['T%d' % i] = NASA_RANKS[i % len(NASA_RANKS)]
+            I = interp(repo, ranks, cls=cls)
             return I, nasa_obj(I, repo, misc=attached_models(I, 1, params=('T',)) if with_misc else None)
         if kind == 'Nasa9':
             ranks = seg_ranks(2)
-            for i, r in enumerate([5, 15, 10, 3, 17][:n]):
-                ranks['T%d' % i] = r
-            I = Interp(repo, order=RankOrder(ranks))
+            for i in range(n):
+                ranks['T%d' % i] = NASA9_RANKS[i % len(NASA9_RANKS)]
+            I = interp(repo, ranks, cls=cls)
             return I, nasa9_obj(I, repo, 2, misc=attached_models(I, 1, params=('T',)) if with_misc else None)[0]
         ranks = {'sp.T_low': 1, 'sp.T_high': 5}
         for i in range(n):
             ranks['T%d' % i] = 3
-        I = Interp(repo, order=RankOrder(ranks))
-        o = Obj('sp', sci, attrs={'a': coeff_vector(I, 'a', 8), 'misc_models': None, 'name': 'sp'})
-        set_public(I, o, 'units', I.D.sym('units'))
-        sel_opaque(o)
-        return I, o
+        I = interp(repo, ranks, cls=cls)
+        return I, shomate_obj(I, repo, I.D.sym('units'))
+
+    def temperatures(I, n, form, dtype=None):
+        Ts = [I.D.sym('T%d' % i) for i in range(n)]
+        arr = ListV(list(Ts))
+        if form == 'array':
+            arr.is_array = True
+            if dtype:
+                arr.dtype = dtype
+        return Ts, arr
+
+    def untouched(I, o, kind, modname, q, arr, Ts, form, owner, fn):
+        """the container of temperatures holds what it held before the call"""
+        same_T = len(arr.items) == len(Ts) and all(x is y or same(x, y) for x, y in zip(arr.items, Ts))
+        run.check(same_T, 'EFFECT.argument', '%s.%s.get_%s' % (modname, kind, q), 'temperatures given as %s' % form,
+                  'get_%s modifies the %s of temperatures it was given: after the call it holds %s (a result buffer '
+                  'that is the caller\'s own array; whatever is evaluated on that array next - the T in G = GoRT*R*T, a '
+                  'second quantity - is evaluated at these values)' % (q, form, show(arr, 120)), owner.module, fn)
+        return same_T
 
     # with a model attached (its contribution depends on T): every entry of the array carries the model's value at its
     # own temperature
     for kind in ('Nasa', 'Nasa9'):
         for q in ('CpoR', 'HoRT', 'SoR', 'GoRT'):
             I, o = make(kind, 3, with_misc=True)
-            Ts = [I.D.sym('T%d' % i) for i in range(3)]
-            arr = ListV(list(Ts))
-            arr.is_array = True
-            arr.dtype = 'float'
+            Ts, arr = temperatures(I, 3, 'array', 'float')
             owner, fn = repo.find_method(o.ci, 'get_' + q)
             got = I.call_method(o, 'get_' + q, [], {'T': arr})
+            untouched(I, o, kind, 'nasa', q, arr, Ts, 'array of floats', owner, fn)
             each = [I.call_method(o, 'get_' + q, [], {'T': t}) for t in Ts]
             ok = isinstance(got, ListV) and len(got) == 3 and all(same(x, y) for x, y in zip(got.items, each))
             run.check(ok, 'BRANCH-TWIN', 'nasa.%s.get_%s' % (kind, q), 'array-vs-elementwise with an attached model',
@@ -419,25 +729,33 @@ def class_rules(run, repo, max_len):
             n_bt += 1
     for kind, modname in (('Nasa', 'nasa'), ('Nasa9', 'nasa'), ('Shomate', 'shomate')):
         for q in ('CpoR', 'HoRT', 'SoR', 'GoRT'):
+            con = '%s.%s.get_%s' % (modname, kind, q)
             bad = None
-            for n in range(1, max_len + 1):
-                I, o = make(kind, n)
-                Ts = [I.D.sym('T%d' % i) for i in range(n)]
-                arr = ListV(list(Ts))
-                arr.is_array = True
+            compares = {}
+            lengths = [(n, 'array') for n in range(1, max_len + 1)] + [(2, 'list')]
+            done = set()
+            while lengths:
+                n, form = lengths.pop(0)
+                done.add(n)
+                I, o = make(kind, n, cls=LenWatch)
+                Ts, arr = temperatures(I, n, form)
                 owner, fn = repo.find_method(o.ci, 'get_' + q)
+                del I.int_compares[:]
                 got = I.call_method(o, 'get_' + q, [], {'T': arr})
+                if form == 'array' and n <= max_len:
+                    compares[n] = list(I.int_compares)
                 hz = list(I.dtype_hazards)
-                if n == 2:
+                if n == 2 and form == 'array':
                     # the container of temperatures may hold integers (np.arange(300, 2000, 250)): a result
                     # buffer that takes its element type from it truncates every value stored into it
                     hm = repo.modules.get([mm for mm in repo.modules if repo.modules[mm].relpath == hz[0][1]][0]) \
                         if hz else owner.module
-                    run.check(not hz, 'BRANCH-TWIN.dtype', '%s.%s.get_%s' % (modname, kind, q), 'integer temperatures',
+                    run.check(not hz, 'BRANCH-TWIN.dtype', con, 'integer temperatures',
                               'a result buffer is created with the element type of the caller\'s temperature '
                               'container and real values are stored into it: with integer temperatures the array '
                               'result is truncated and differs from element-by-element evaluation', hm,
                               hz[0][0] if hz else fn)
+                untouched(I, o, kind, modname, q, arr, Ts, form, owner, fn)
                 each = [I.call_method(o, 'get_' + q, [], {'T': t}) for t in Ts]
                 if n == 1 and isinstance(got, (Rat, SumV)):
                     got = ListV([got])      # documented: size-1 input may come back as a scalar
@@ -445,22 +763,43 @@ def class_rules(run, repo, max_len):
                     all(same(x, y) for x, y in zip(got.items, each))
                 n_bt += 1
                 if ok:
-                    run.ok('BRANCH-TWIN', '%s.%s.get_%s' % (modname, kind, q),
+                    run.ok('BRANCH-TWIN', con,
                            '%s.get_%s([T0..T%d]) == [get_%s(Ti)]' % (kind, q, n - 1, q) if n == 3 else None)
                 elif bad is None:
-                    bad = (n, got, each)
+                    bad = (n, form, got, each)
+                if not lengths and len(compares) == max_len:
+                    # the getter compared the number of temperatures with a constant beyond the unrolled lengths:
+                    # the lengths on either side of that constant are instances too
+                    more = length_thresholds(compares, done)
+                    compares = {}
+                    if more and more[-1] > LONGEST:
+                        raise Unsupported('%s.get_%s decides on the number of temperatures at %d: arrays of that '
+                                          'length are not unrolled' % (kind, q, more[-1]))
+                    lengths = [(m_, 'array') for m_ in more]
+                    if more:
+                        run.extra.setdefault('array lengths added at a dispatch on the length', {})[con] = more
             if bad is not None:
-                n, got, each = bad
-                run.fail('BRANCH-TWIN', '%s.%s.get_%s' % (modname, kind, q), 'array-vs-elementwise',
-                         'for an array of %d temperatures the result %s differs from element-by-element '
-                         'evaluation %s (a 1-element array stored into a scalar slot raises in numpy)'
-                         % (n, show(got), show(ListV(each))), owner.module, fn)
+                n, form, got, each = bad
+                wrong = [i for i, (x, y) in enumerate(zip(got.items, each)) if not same(x, y)] \
+                    if isinstance(got, ListV) and len(got) == n else []
+                at = ' (entries %s; entry %d: %s, on its own %s)' % (wrong[:6], wrong[0], show(got.items[wrong[0]], 90),
+                                                                   show(each[wrong[0]], 90)) if wrong and n > 5 else ''
+                run.fail('BRANCH-TWIN', con, 'array-vs-elementwise',
+                         'for %s of %d temperatures the result %s differs from element-by-element '
+                         'evaluation %s%s (a 1-element array stored into a scalar slot raises in numpy)'
+                         % ('an array' if form == 'array' else 'a list', n, show(got), show(ListV(each)), at),
+                         owner.module, fn)
     return n_bt
 
 
 FLOAT_MAKERS = {'float', 'float64', 'double', 'float_', 'longdouble'}
+FLOAT_TYPES = FLOAT_MAKERS | {'floating', 'float32', 'float16', 'half', 'single'}
+FLOAT_RESULTS = {'log', 'log10', 'log2', 'log1p', 'exp', 'expm1', 'sqrt', 'divide', 'true_divide', 'float_power', 'mean',
+                 'average', 'linspace'}
 CARRIERS = {'array', 'asarray', 'asanyarray', 'squeeze', 'atleast_1d', 'ravel', 'copy', 'reshape', 'sort', 'abs',
-            'absolute', 'negative', 'positive', 'unique'}
+            'absolute', 'negative', 'positive', 'unique', 'ones_like', 'zeros_like', 'full_like', 'flatten', 'item',
+            'min', 'max', 'amin', 'amax', 'sum', 'cumsum', 'sorted', 'list', 'tuple', 'transpose', 'ascontiguousarray'}
+RANK = {'float': 0, 'unknown': 1, 'carry': 2}
 
 
 def _dtype_kind(node):
@@ -474,13 +813,50 @@ def _dtype_kind(node):
     return 'other'
 
 
-class NumKind:
-    """does an expression hold the caller's number unchanged in type ('carry': an integer temperature stays an
-    integer), a float whatever the caller passed ('float'), or something this analysis does not follow ('unknown')?
-    Follows assignments inside the function and calls of functions defined in the repository."""
+class Scope:
+    """what is known about the local names at one point of a function: the kind of number each holds and, for names
+    that hold whole-number constants (or a container of them), which"""
 
-    def __init__(self, repo):
+    def __init__(self, kinds=None, consts=None):
+        self.k = dict(kinds or {})
+        self.c = dict(consts or {})
+
+    def copy(self):
+        return Scope(self.k, self.c)
+
+    @staticmethod
+    def join(scopes):
+        scopes = [s_ for s_ in scopes if s_ is not None]
+        if not scopes:
+            return None
+        out = Scope()
+        for nm in set().union(*[set(s_.k) for s_ in scopes]):
+            out.k[nm] = KindFlow.join(s_.k.get(nm, 'unknown') for s_ in scopes)
+        for nm in set.intersection(*[set(s_.c) for s_ in scopes]):
+            vals = [s_.c[nm] for s_ in scopes]
+            if all(v is not None for v in vals):
+                out.c[nm] = frozenset().union(*vals)
+        return out
+
+
+class KindFlow:
+    """Which kind of number does an expression hold where it is evaluated: the caller's number with its type unchanged
+    ('carry': an integer temperature is still an integer), a float whatever the caller passed ('float'), or something
+    this analysis does not follow ('unknown')?  A forward flow over the statements of a function in execution order:
+    assignments (also tuple-wise), both arms of a branch with what the test says about the type of a name
+    (isinstance(x, float), type(x) is float) and the join where they meet, loops, comprehensions, conditional
+    expressions, calls of functions and methods defined in the repository (with the kinds of the arguments at that
+    call).  Every power met on the way is handed to ``on_power`` with the kind of its base and the whole numbers its
+    exponent can be (None: not known)."""
+
+    def __init__(self, repo, on_power, stop_at=()):
         self.repo = repo
+        self.on_power = on_power
+        self.stop_at = set(stop_at)      # ids of function definitions analysed on their own: not entered from a caller
+        self.m = None
+        self.ci = None
+        self.rets = []
+        self.active = []
 
     @staticmethod
     def join(kinds):
@@ -493,35 +869,6 @@ class NumKind:
             return 'float'
         return 'unknown'
 
-    def name_kind(self, m, fn, name, before, env, depth):
-        """kind of the value of ``name`` in ``fn`` where it is read at line ``before``"""
-        defs = []
-        for st in ast.walk(fn):
-            if isinstance(st, ast.Assign) and any(isinstance(t, ast.Name) and t.id == name for t in st.targets) \
-                    and st.lineno < before:
-                defs.append(st)
-            elif isinstance(st, ast.AugAssign) and isinstance(st.target, ast.Name) and st.target.id == name \
-                    and st.lineno < before:
-                defs.append(st)
-        if not defs:
-            return env.get(name, 'unknown')
-        # the last straight-line (function body level) assignment kills the earlier ones
-        top = [st for st in defs if st in fn.body]
-        if top:
-            last = max(top, key=lambda s: s.lineno)
-            defs = [st for st in defs if st.lineno >= last.lineno]
-            start = None
-        else:
-            start = env.get(name)
-        kinds = [] if start is None else [start]
-        for st in defs:
-            if isinstance(st, ast.AugAssign):
-                kinds.append(self.join_bin(self.name_kind(m, fn, name, st.lineno, env, depth),
-                                           self.kind(m, fn, st.value, env, depth), st.op))
-            else:
-                kinds.append(self.kind(m, fn, st.value, env, depth))
-        return self.join(kinds)
-
     @staticmethod
     def join_bin(a, b, op):
         if isinstance(op, ast.Div):
@@ -532,88 +879,417 @@ class NumKind:
             return 'carry'
         return 'unknown'
 
-    def kind(self, m, fn, e, env, depth=0):
+    # ---- functions -----------------------------------------------------------------------------------------------
+    def function(self, m, fdef, scope, ci=None):
+        """kind of what fdef returns when entered with ``scope``"""
+        if id(fdef) in self.active or len(self.active) > 8:
+            return 'unknown'
+        saved = (self.m, self.ci)
+        self.m, self.ci = m, ci
+        self.active.append(id(fdef))
+        self.rets.append([])
+        try:
+            self.block(fdef.body, scope)
+            return self.join(self.rets[-1])
+        finally:
+            self.rets.pop()
+            self.active.pop()
+            self.m, self.ci = saved
+
+    # ---- statements ----------------------------------------------------------------------------------------------
+    def block(self, stmts, sc):
+        for st in stmts:
+            if sc is None:
+                return None
+            sc = self.stmt(st, sc)
+        return sc
+
+    def stmt(self, st, sc):
+        if isinstance(st, ast.Assign):
+            for t in st.targets:
+                self.bind_value(t, st.value, sc)
+            return sc
+        if isinstance(st, ast.AnnAssign):
+            if st.value is not None:
+                self.bind_value(st.target, st.value, sc)
+            return sc
+        if isinstance(st, ast.AugAssign):
+            k = self.kind(st.value, sc)
+            if isinstance(st.target, ast.Name):
+                if isinstance(st.op, ast.Pow):
+                    self.power(st, st.target, st.value, sc.k.get(st.target.id, 'unknown'), sc)
+                sc.k[st.target.id] = self.join_bin(sc.k.get(st.target.id, 'unknown'), k, st.op)
+                sc.c.pop(st.target.id, None)
+            else:
+                self.kind(st.target, sc)
+            return sc
+        if isinstance(st, ast.Return):
+            self.rets[-1].append(self.kind(st.value, sc) if st.value is not None else 'unknown')
+            return None
+        if isinstance(st, ast.Raise):
+            if st.exc is not None:
+                self.kind(st.exc, sc)
+            return None
+        if isinstance(st, (ast.Break, ast.Continue)):
+            return None
+        if isinstance(st, ast.Expr):
+            self.kind(st.value, sc)
+            return sc
+        if isinstance(st, ast.If):
+            t, f = self.refine(st.test, sc)
+            return Scope.join([self.block(st.body, t), self.block(st.orelse, f)])
+        if isinstance(st, (ast.For, ast.While)):
+            entry = sc
+            for _ in range(2):          # kinds only move up; a second pass sees what the first pass assigned
+                cur = entry.copy()
+                if isinstance(st, ast.For):
+                    self.bind(st.target, self.elem_kind(st.iter, cur), cur, self.consts(st.iter, cur))
+                else:
+                    self.kind(st.test, cur)
+                out = self.block(st.body, cur)
+                entry = Scope.join([entry, out]) or entry
+            return Scope.join([entry, self.block(st.orelse, entry.copy())]) or entry
+        if isinstance(st, ast.With):
+            for it in st.items:
+                k = self.kind(it.context_expr, sc)
+                if it.optional_vars is not None:
+                    self.bind(it.optional_vars, 'unknown' if k != 'unknown' else k, sc)
+            return self.block(st.body, sc)
+        if isinstance(st, ast.Try):
+            body = self.block(st.body, sc.copy())
+            mid = Scope.join([sc, body]) or sc
+            outs = [self.block(st.orelse, body.copy()) if body is not None else None]
+            for h in st.handlers:
+                hs = mid.copy()
+                if h.name:
+                    hs.k[h.name] = 'unknown'
+                outs.append(self.block(h.body, hs))
+            out = Scope.join(outs)
+            if st.finalbody:
+                out = self.block(st.finalbody, out if out is not None else mid.copy())
+            return out
+        if isinstance(st, (ast.FunctionDef, ast.ClassDef, ast.Lambda)):
+            if isinstance(st, ast.FunctionDef):
+                sc.k[st.name] = 'unknown'
+            return sc
+        for ch in ast.iter_child_nodes(st):
+            if isinstance(ch, ast.expr):
+                self.kind(ch, sc)
+        return sc
+
+    def bind_value(self, target, value, sc):
+        if isinstance(target, (ast.Tuple, ast.List)) and isinstance(value, (ast.Tuple, ast.List)) and \
+                len(target.elts) == len(value.elts) and not any(isinstance(x, ast.Starred) for x in target.elts + value.elts):
+            vals = [(self.kind(v, sc), self.consts(v, sc)) for v in value.elts]     # the right side first, as Python does
+            for t, (k, c_) in zip(target.elts, vals):
+                self.bind(t, k, sc, c_)
+            return
+        self.bind(target, self.kind(value, sc), sc, self.consts(value, sc))
+
+    def bind(self, target, k, sc, consts=None):
+        if isinstance(target, ast.Name):
+            sc.k[target.id] = k if isinstance(k, str) else self.join(k)
+            if consts is not None:
+                sc.c[target.id] = consts
+            else:
+                sc.c.pop(target.id, None)
+        elif isinstance(target, (ast.Tuple, ast.List)):
+            ks = list(k) if isinstance(k, tuple) and len(k) == len(target.elts) else \
+                [k if isinstance(k, str) else self.join(k)] * len(target.elts)
+            for t, kk in zip(target.elts, ks):
+                self.bind(t, kk, sc)
+        elif isinstance(target, ast.Starred):
+            self.bind(target.value, k, sc)
+        else:
+            self.kind(target, sc)       # a store into a container / an attribute: only the powers inside are looked at
+
+    def elem_kind(self, it, sc):
+        """kind(s) of one element of an iterable"""
+        if isinstance(it, ast.Call) and isinstance(it.func, ast.Name) and it.func.id == 'enumerate' and it.args:
+            return ('unknown', self.elem_kind(it.args[0], sc))
+        if isinstance(it, ast.Call) and isinstance(it.func, ast.Name) and it.func.id == 'zip':
+            return tuple(self.elem_kind(a, sc) for a in it.args)
+        if isinstance(it, ast.Call) and isinstance(it.func, ast.Name) and it.func.id == 'range':
+            for a in it.args:
+                self.kind(a, sc)
+            return 'unknown'
+        k = self.kind(it, sc)
+        return k
+
+    # ---- what a test says about types ----------------------------------------------------------------------------
+    @staticmethod
+    def _float_types(node):
+        if isinstance(node, (ast.Tuple, ast.List)):
+            return bool(node.elts) and all(KindFlow._float_types(x) for x in node.elts)
+        if isinstance(node, ast.Name):
+            return node.id in FLOAT_TYPES
+        if isinstance(node, ast.Attribute):
+            return node.attr in FLOAT_TYPES
+        return False
+
+    def refine(self, test, sc):
+        """(scope where the test holds, scope where it does not)"""
+        self.kind(test, sc)
+        return self._refine(test, sc.copy(), sc.copy())
+
+    def _refine(self, test, t, f):
+        if isinstance(test, ast.UnaryOp) and isinstance(test.op, ast.Not):
+            f2, t2 = self._refine(test.operand, f, t)
+            return t2, f2
+        if isinstance(test, ast.BoolOp):
+            for v in test.values:
+                if isinstance(test.op, ast.And):
+                    t, _ = self._refine(v, t, t.copy())
+                else:
+                    _, f = self._refine(v, f.copy(), f)
+            return t, f
+        if isinstance(test, ast.Call) and isinstance(test.func, ast.Name) and test.func.id == 'isinstance' \
+                and len(test.args) == 2 and isinstance(test.args[0], ast.Name) and self._float_types(test.args[1]):
+            t.k[test.args[0].id] = 'float'
+            return t, f
+        if isinstance(test, ast.Compare) and len(test.ops) == 1 and isinstance(test.left, ast.Call) and \
+                isinstance(test.left.func, ast.Name) and test.left.func.id == 'type' and len(test.left.args) == 1 and \
+                isinstance(test.left.args[0], ast.Name) and self._float_types(test.comparators[0]):
+            if isinstance(test.ops[0], (ast.Is, ast.Eq)):
+                t.k[test.left.args[0].id] = 'float'
+            elif isinstance(test.ops[0], (ast.IsNot, ast.NotEq)):
+                f.k[test.left.args[0].id] = 'float'
+            return t, f
+        return t, f
+
+    # ---- whole-number constants ------------------------------------------------------------------------------------
+    def consts(self, e, sc, depth=0):
+        """the whole numbers an expression (or the entries of a container) can be, None when not known"""
         if isinstance(e, ast.Constant):
-            return 'float' if isinstance(e.value, float) else 'unknown'
+            return frozenset([e.value]) if isinstance(e.value, int) and not isinstance(e.value, bool) else None
+        if isinstance(e, ast.UnaryOp) and isinstance(e.op, (ast.USub, ast.UAdd)):
+            v = self.consts(e.operand, sc, depth)
+            return None if v is None else frozenset(-x if isinstance(e.op, ast.USub) else x for x in v)
+        if isinstance(e, ast.BinOp) and isinstance(e.op, (ast.Add, ast.Sub, ast.Mult)):
+            l, r = self.consts(e.left, sc, depth), self.consts(e.right, sc, depth)
+            if l is None or r is None or len(l) * len(r) > 400:
+                return None
+            op = {ast.Add: lambda x, y: x + y, ast.Sub: lambda x, y: x - y, ast.Mult: lambda x, y: x * y}[type(e.op)]
+            return frozenset(op(x, y) for x in l for y in r)
         if isinstance(e, ast.Name):
-            return self.name_kind(m, fn, e.id, e.lineno, env, depth)
-        if isinstance(e, (ast.List, ast.Tuple)):
-            return self.join(self.kind(m, fn, x, env, depth) for x in e.elts)
-        if isinstance(e, ast.UnaryOp):
-            return self.kind(m, fn, e.operand, env, depth)
-        if isinstance(e, ast.BinOp):
-            return self.join_bin(self.kind(m, fn, e.left, env, depth), self.kind(m, fn, e.right, env, depth), e.op)
-        if isinstance(e, ast.IfExp):
-            return self.join([self.kind(m, fn, e.body, env, depth), self.kind(m, fn, e.orelse, env, depth)])
-        if isinstance(e, ast.Subscript):
-            return self.kind(m, fn, e.value, env, depth)
+            if e.id in sc.k or e.id in sc.c:
+                return sc.c.get(e.id)
+            vals = self.m.assigns.get(e.id) if self.m is not None else None
+            if vals and len(vals) == 1 and depth < 4:
+                return self.consts(vals[0], Scope(), depth + 1)
+            return None
+        if isinstance(e, (ast.List, ast.Tuple, ast.Set)):
+            out = frozenset()
+            for x in e.elts:
+                v = self.consts(x, sc, depth)
+                if v is None:
+                    return None
+                out |= v
+            return out
         if isinstance(e, ast.Call):
             f = e.func
             fname = f.id if isinstance(f, ast.Name) else f.attr if isinstance(f, ast.Attribute) else None
-            for kw in e.keywords:
-                if kw.arg == 'dtype':
-                    return 'float' if _dtype_kind(kw.value) == 'float' else 'unknown'
-            target = self.repo.resolve_expr(m, f) if isinstance(f, (ast.Name, ast.Attribute)) else None
-            if isinstance(target, tuple) and target[0] == 'function':
-                if depth > 6:
-                    return 'unknown'
-                _, fm, fdef = target
-                pos, _ = params(fdef)[0], None
-                sub_env = {}
-                for p, a in zip(pos, e.args):
-                    sub_env[p] = self.kind(m, fn, a, env, depth)
-                for kw in e.keywords:
-                    if kw.arg:
-                        sub_env[kw.arg] = self.kind(m, fn, kw.value, env, depth)
-                rets = [r for r in ast.walk(fdef) if isinstance(r, ast.Return) and r.value is not None]
-                return self.join(self.kind(fm, fdef, r.value, sub_env, depth + 1) for r in rets)
-            if fname in FLOAT_MAKERS:
-                return 'float'
-            if fname == 'astype' and e.args:
-                return 'float' if _dtype_kind(e.args[0]) == 'float' else 'unknown'
-            if fname in CARRIERS:
-                if e.args:
-                    return self.kind(m, fn, e.args[0], env, depth)
-                if isinstance(f, ast.Attribute):
-                    return self.kind(m, fn, f.value, env, depth)
+            if fname in ('range', 'arange') and 1 <= len(e.args) <= 3 and not e.keywords:
+                vs = [self.consts(a, sc, depth) for a in e.args]
+                if all(v is not None and len(v) == 1 for v in vs):
+                    nums = [next(iter(v)) for v in vs]
+                    if len(nums) < 3 or nums[2] != 0:
+                        r = range(*nums)
+                        return frozenset(r) if len(r) <= 400 else None
+                return None
+            if fname in ('array', 'asarray', 'list', 'tuple', 'sorted', 'reversed', 'int') and len(e.args) == 1:
+                return self.consts(e.args[0], sc, depth)
+        return None
+
+    # ---- expressions -----------------------------------------------------------------------------------------------
+    def power(self, node, base, exp, base_kind, sc):
+        exps = self.consts(exp, sc)
+        if exps is None and self.kind_quiet(exp, sc) == 'float':
+            return                      # a float exponent makes the result a float for every base
+        self.on_power(self.m, node, base, base_kind, exps)
+
+    def kind_quiet(self, e, sc):
+        saved, self.on_power = self.on_power, (lambda *a: None)
+        try:
+            return self.kind(e, sc)
+        finally:
+            self.on_power = saved
+
+    def comprehension(self, e, sc):
+        inner = sc.copy()
+        for g in e.generators:
+            self.bind(g.target, self.elem_kind(g.iter, inner), inner, self.consts(g.iter, inner))
+            if isinstance(g.target, ast.Name):
+                c_ = self.consts(g.iter, inner)
+                if c_ is not None:
+                    inner.c[g.target.id] = c_
+            for cond in g.ifs:
+                inner, _ = self.refine(cond, inner)
+        return inner
+
+    def kind(self, e, sc):
+        if e is None:
             return 'unknown'
+        if isinstance(e, ast.Constant):
+            return 'float' if isinstance(e.value, float) else 'unknown'
+        if isinstance(e, ast.Name):
+            return sc.k.get(e.id, 'unknown')
+        if isinstance(e, (ast.List, ast.Tuple, ast.Set)):
+            return self.join([self.kind(x, sc) for x in e.elts])
+        if isinstance(e, ast.Starred):
+            return self.kind(e.value, sc)
+        if isinstance(e, ast.UnaryOp):
+            return self.kind(e.operand, sc)
+        if isinstance(e, ast.BinOp):
+            l, r = self.kind(e.left, sc), self.kind(e.right, sc)
+            if isinstance(e.op, ast.Pow):
+                self.power(e, e.left, e.right, l, sc)
+            return self.join_bin(l, r, e.op)
+        if isinstance(e, ast.IfExp):
+            t, f = self.refine(e.test, sc)
+            return self.join([self.kind(e.body, t), self.kind(e.orelse, f)])
+        if isinstance(e, ast.Subscript):
+            self.kind(e.slice, sc)
+            return self.kind(e.value, sc)
+        if isinstance(e, (ast.ListComp, ast.GeneratorExp, ast.SetComp)):
+            return self.kind(e.elt, self.comprehension(e, sc))
+        if isinstance(e, ast.DictComp):
+            inner = self.comprehension(e, sc)
+            self.kind(e.key, inner)
+            return self.kind(e.value, inner)
+        if isinstance(e, ast.NamedExpr):
+            k = self.kind(e.value, sc)
+            self.bind(e.target, k, sc, self.consts(e.value, sc))
+            return k
+        if isinstance(e, ast.Call):
+            return self.call(e, sc)
+        if isinstance(e, ast.Lambda):
+            return 'unknown'
+        for ch in ast.iter_child_nodes(e):
+            if isinstance(ch, ast.expr):
+                self.kind(ch, sc)
+        return 'unknown'
+
+    def call(self, e, sc):
+        f = e.func
+        fname = f.id if isinstance(f, ast.Name) else f.attr if isinstance(f, ast.Attribute) else None
+        recv = self.kind(f.value, sc) if isinstance(f, ast.Attribute) else None
+        if not isinstance(f, (ast.Name, ast.Attribute)):
+            self.kind(f, sc)
+        argk = [self.kind(a, sc) for a in e.args]
+        kwk = {kw.arg: self.kind(kw.value, sc) for kw in e.keywords}
+        if fname in ('pow', 'power') and len(e.args) >= 2 and not (fname == 'pow' and isinstance(f, ast.Attribute)
+                                                                   and recv != 'unknown'):
+            self.power(e, e.args[0], e.args[1], argk[0], sc)
+            return self.join_bin(argk[0], argk[1], ast.Pow())
+        for kw in e.keywords:
+            if kw.arg == 'dtype':
+                return 'float' if _dtype_kind(kw.value) == 'float' else 'unknown'
+        target = None
+        if isinstance(f, ast.Attribute) and isinstance(f.value, ast.Name) and f.value.id in ('self', 'cls') \
+                and self.ci is not None and f.value.id not in sc.k:
+            got = self.repo.find_method(self.ci, f.attr, missing_ok=True)
+            if got:
+                target = ('method', got[0], got[1])
+        elif isinstance(f, (ast.Name, ast.Attribute)) and not (isinstance(f, ast.Name) and f.id in sc.k):
+            target = self.repo.resolve_expr(self.m, f)
+        if isinstance(target, tuple) and target[0] in ('function', 'method'):
+            if target[0] == 'function':
+                _, fm, fdef = target
+                owner = None
+            else:
+                _, owner, fdef = target
+                fm = owner.module
+            if id(fdef) in self.stop_at:
+                return 'unknown'        # analysed as an entry point of its own, with every argument the caller's
+            pos = list(params(fdef)[0])
+            if owner is not None and pos and not any(ast.unparse(d) == 'staticmethod' for d in fdef.decorator_list):
+                pos = pos[1:]
+            sub_ = Scope()
+            for p_, a_, an in zip(pos, argk, e.args):
+                sub_.k[p_] = a_
+                c_ = self.consts(an, sc)
+                if c_ is not None:
+                    sub_.c[p_] = c_
+            for kw in e.keywords:
+                if kw.arg:
+                    sub_.k[kw.arg] = kwk[kw.arg]
+                    c_ = self.consts(kw.value, sc)
+                    if c_ is not None:
+                        sub_.c[kw.arg] = c_
+            return self.function(fm, fdef, sub_, owner if owner is not None else None)
+        if fname in FLOAT_MAKERS or fname in FLOAT_RESULTS:
+            return 'float'
+        if fname == 'astype' and e.args:
+            return 'float' if _dtype_kind(e.args[0]) == 'float' else 'unknown'
+        if fname in CARRIERS:
+            if isinstance(f, ast.Attribute) and recv is not None and not (
+                    isinstance(f.value, ast.Name) and f.value.id not in sc.k):
+                return recv             # a method of the value itself: T.squeeze(), T.copy()
+            if argk:
+                return argk[0]
         return 'unknown'
 
 
-def integer_temperatures(run, repo):
-    """numpy refuses a negative integer power of an integer: an evaluator that raises its temperature argument
-    to such a power without first making it a float cannot be evaluated at T=300 / np.arange(...) temperatures,
-    which the sibling evaluators accept.  Decided by following the value of the base of every such power back to
-    the function's arguments (assignments, array constructors and helpers defined in the repository are followed;
-    'float' wherever float()/np.float64()/dtype=float/true division/a float constant intervenes)."""
+def integer_temperatures(run, repo, neg_events):
+    """numpy refuses a negative integer power of an integer: an evaluator that raises its temperature argument to such a
+    power without first making it a float cannot be evaluated at T=300 / np.arange(...) temperatures, which the sibling
+    evaluators accept.  Decided for every public evaluator and getter of the two modules by a forward flow of number kinds
+    (KindFlow) from its arguments - which hold the caller's numbers as they are - to the base of every power whose
+    exponent can be a negative whole number.  neg_events: evaluator -> number of negative whole powers of T the
+    interpreter computed in it; an evaluator for which the flow finds none of them is outside what the flow follows."""
     n = 0
-    nk = NumKind(repo)
+    entries = []
     for modname in (NASA, SHO):
         m = repo.module(modname)
+        short = modname.split('.')[-1]
         for fname, fn in sorted(m.functions.items()):
-            if not fname.startswith('get_'):
+            if fname.startswith('get_'):
+                entries.append(('%s.%s' % (short, fname), m, fn, None))
+        for cname, ci in sorted(m.classes.items()):
+            for mname, fn in sorted(ci.methods.items()):
+                if mname.startswith('get_') and '.' not in mname:
+                    entries.append(('%s.%s.%s' % (short, cname, mname), m, fn, ci))
+    stop = {id(fn) for _, _, fn, _ in entries}
+    decided = {}
+    for con, m, fn, ci in entries:
+        sites = {}
+
+        def on_power(pm, node, base, kind, exps, sites=sites):
+            if exps is not None and not any(x < 0 for x in exps):
+                return
+            key = (pm.relpath, node.lineno, node.col_offset)
+            how = 'neg' if exps is not None else 'open'
+            old = sites.get(key)
+            if old is None or RANK[kind] > RANK[old[2]]:
+                sites[key] = (pm, node, kind, how, base)
+        flow = KindFlow(repo, on_power, stop_at=stop - {id(fn)})
+        pos = list(params(fn)[0])
+        if ci is not None and pos and not any(ast.unparse(d) == 'staticmethod' for d in fn.decorator_list):
+            pos = pos[1:]
+        flow.function(m, fn, Scope({p: 'carry' for p in pos}), ci)
+        decided[con] = 0
+        for key in sorted(sites):
+            pm, node, kind, how, base = sites[key]
+            where = '%s:%d' % (pm.relpath, node.lineno)
+            if how == 'open':
+                if kind == 'carry':
+                    run.extra.setdefault('powers of an argument whose exponent was not followed', []).append(where)
                 continue
-            env = {p: 'carry' for p in params(fn)[0]}
-            for node in ast.walk(fn):
-                if not (isinstance(node, ast.BinOp) and isinstance(node.op, ast.Pow)):
-                    continue
-                e = node.right
-                neg = isinstance(e, ast.UnaryOp) and isinstance(e.op, ast.USub) and \
-                    isinstance(e.operand, ast.Constant) and isinstance(e.operand.value, int)
-                if not neg:
-                    continue
-                k = nk.kind(m, fn, node.left, env)
-                if k == 'unknown':
-                    run.extra.setdefault('negative powers whose base was not followed', []).append(
-                        '%s:%d' % (m.relpath, node.lineno))
-                    continue
-                n += 1
-                run.check(k == 'float', 'TYPE.negpow', '%s.%s' % (modname.split('.')[-1], fname),
-                          'integer temperatures',
-                          '%s is raised to a negative integer power and holds the caller\'s value with its type '
-                          'unchanged: numpy refuses this for integer temperatures (T=300 reaches here as np.int64), '
-                          'so the species cannot be evaluated there although its sibling evaluators can'
-                          % ast.unparse(node.left), m, node)
+            if kind == 'unknown':
+                run.extra.setdefault('negative powers whose base was not followed', []).append(where)
+                continue
+            n += 1
+            decided[con] += 1
+            run.check(kind == 'float', 'TYPE.negpow', con, 'integer temperatures',
+                      '%s is raised to a negative integer power and holds the caller\'s value with its type '
+                      'unchanged: numpy refuses this for integer temperatures (T=300 reaches here as np.int64), '
+                      'so the species cannot be evaluated there although its sibling evaluators can'
+                      % ast.unparse(base), pm, node)
+    for con, cnt in sorted(neg_events.items()):
+        if cnt and not decided.get(con):
+            raise Unsupported('%s computes %d negative whole power(s) of T, none of which the number-kind flow of '
+                              'TYPE.negpow found: spelled in a way the flow does not follow' % (con, cnt))
     return n
 
 
@@ -636,6 +1312,7 @@ def check(run, repo):
                      'behaviour for non-numeric T']
     thorough = run.tier == 'thorough'
     shomate_units(run, repo, ('J/mol/K', 'kJ/mol/K', 'cal/mol/K', 'kcal/mol/K', 'eV/K'))
+    run.floor('temperatures next to a bound', neighbour_rules(run, repo), 60)
     fams = {}
     fams['nasa'] = slot_rules(run, repo, 'nasa', NASA, 'get_nasa_', 7)
     fams['nasa9'] = slot_rules(run, repo, 'nasa9', NASA, 'get_nasa9_', 9)
@@ -643,9 +1320,14 @@ def check(run, repo):
     check_get_a(run, repo)
     n = check_get_nasa(run, repo, 4 if thorough else 3)
     run.floor('Nasa9 segment-selection positions', n, 20)
-    nbt = class_rules(run, repo, 5 if thorough else 3)
+    class_rules(run, repo)
+    run.floor('species evaluated after another one / after their data were replaced', state_rules(run, repo), 36)
+    nbt = array_rules(run, repo, 5 if thorough else 3)
     run.floor('BRANCH-TWIN instances', nbt, 36)
-    run.extra['negative integer powers of an argument'] = integer_temperatures(run, repo)
+    neg = {}
+    for fam in fams.values():
+        neg.update(fam['neg'])
+    run.extra['negative integer powers of an argument'] = integer_temperatures(run, repo, neg)
     run.extra['array_length_bound'] = 5 if thorough else 3
 
 
